@@ -77,6 +77,7 @@ class Run(object):
         self.level = 'other'
         self.explanation = ''
         self.monitored = {}
+        self.selftest = None
         self.monitor_failures = {}
         self.replay_dir = os.path.join(ROOT, 'replay')
         os.makedirs(self.replay_dir, exist_ok=True)
@@ -171,6 +172,17 @@ class Run(object):
                     self.monitor_failures.setdefault(key, {'args': concrete.to_jsonable(args), 'clause': detail, 'variant': 'compiled', 'tried': n})
                     break
             self.monitored[key] = {'cases': min(n, budget), 'ok': ok}
+            if n > 0 and ok == 0 and key not in self.monitor_failures:
+                # vacuity guard: not a single generated input satisfied the requires clause
+                self.checker_errors.append('vacuity: no generated input satisfies the requires of %s (%d tried)' % (key, min(n, budget)))
+
+    def generator_selftest(self):
+        """thorough tier: the verifier must kill a fixed set of kernel mutants (scratch copy, removed afterwards)"""
+        from . import selftest
+        res = selftest.run(self)
+        self.selftest = res
+        if res['survived']:
+            self.checker_errors.append('generator self-test: mutants survived: %s' % res['survived'])
 
     # ------------------------------------------------------------------ failing-input search and replay
     def find_failing_input(self, key, budget_s=20):
@@ -326,6 +338,7 @@ class Run(object):
                 'solver_time_s': round(self.solver_time, 2),
                 'functions_under_contract': self.functions,
                 'runtime_monitor': self.monitored,
+                'generator_selftest': self.selftest,
                 'undischarged': sorted(o for o, r in self.obligations.items() if not r['discharged']),
                 'evaluations': max(cases + n_obl, 1),
                 'distinct_nontrivial': max(nontriv + n_dis, 0),
